@@ -59,7 +59,7 @@ mod verif_c05 {
     }
     struct ScriptMap {
         keys: [usize; 2],
-        form: u8,
+        form: [u8; 2],
         vals: [bool; 2],
         i: usize,
     }
@@ -69,7 +69,7 @@ mod verif_c05 {
             if self.i >= 2 {
                 return Ok(None);
             }
-            seed.deserialize(KeyDe(self.keys[self.i], self.form)).map(Some)
+            seed.deserialize(KeyDe(self.keys[self.i], self.form[self.i])).map(Some)
         }
         fn next_value_seed<S: DeserializeSeed<'de>>(&mut self, seed: S) -> Result<S::Value, E> {
             let k = self.i;
@@ -82,7 +82,7 @@ mod verif_c05 {
     }
     struct Script {
         keys: [usize; 2],
-        form: u8,
+        form: [u8; 2],
         vals: [bool; 2],
     }
     impl<'de> Deserializer<'de> for Script {
@@ -159,8 +159,10 @@ mod verif_c05 {
             #[kani::unwind(6)]
             fn $name() {
                 let vals: [bool; 2] = kani::any();
-                let form: u8 = kani::any();
-                kani::assume(form < 3);
+                // each key is delivered in its own string form (serde_json hands out a borrowed str for a plain key
+                // and an owned one for a key with an escape sequence, within the same object)
+                let form: [u8; 2] = kani::any();
+                kani::assume(form[0] < 3 && form[1] < 3);
                 reset();
                 let r = <UnknownFieldsBehavior<Plain_> as Behavior>::deserialize_struct(Script { keys: $keys, form, vals }, "S", &DECLARED, SV);
                 let strict: fn(Result<Option<bool>, E>, [bool; 2]) -> bool = $strict;
@@ -171,8 +173,8 @@ mod verif_c05 {
                 assert!(n() == 0);
                 let lenient: fn(Result<Option<bool>, E>, [bool; 2]) -> bool = $lenient;
                 assert!(lenient(r2, vals));
-                kani::cover!(form == 2);
-                kani::cover!(form == 0);
+                kani::cover!(form[0] == 1 && form[1] == 2);
+                kani::cover!(form[0] == 0 && form[1] == 1);
             }
         };
     }
@@ -195,6 +197,7 @@ mod verif_c05 {
         kani::cover!(true);
     }
 
+//@@INTERNALS-BEGIN
     // ---- ValueDeserializer: only deserialize_ignored_any is intercepted ---------------------------------------------
     #[kani::proof]
     #[kani::unwind(6)]
@@ -292,7 +295,7 @@ mod verif_c05 {
         // next_key_seed resets the recorded key first, so an entry whose key is not a string can never be
         // reported under the previous field's name
         let mut sma = StructMapAccess {
-            map: ScriptMap { keys: [0, 0], form: 0, vals: [true, true], i: 2 },
+            map: ScriptMap { keys: [0, 0], form: [0, 0], vals: [true, true], i: 2 },
             fields: &DECLARED,
             key: Some(Cow::Borrowed("old")),
         };
@@ -303,6 +306,7 @@ mod verif_c05 {
         kani::cover!(true);
     }
 
+//@@INTERNALS-END
     #[allow(dead_code)]
     fn _u() {
         log(Ev::Nil);
